@@ -220,6 +220,17 @@ class Interp:
                     raise Unknown("field of %r" % (v,))
             elif p[0] == "downcast":
                 continue
+            elif p[0] == "cindex" and v == ("bytes",) and p[1] == 0 and not p[3]:
+                # slice pattern `[first, ..]` (reached only behind the pattern's own length test)
+                if self.first == "EMPTY":
+                    raise Unknown("first byte of the empty string")
+                v = ("cls", self.first)
+            elif p[0] == "subslice" and v == ("bytes",) and p[1] == 1 and p[2] == 0 and p[3]:
+                # slice pattern `[_, rest @ ..]`: everything after the first byte
+                if self.first == "EMPTY":
+                    raise Unknown("tail of the empty string")
+                v = Chars()
+                v.taken = 1
             else:
                 raise Unknown("projection %s" % p[0])
         return v
@@ -287,6 +298,10 @@ class Interp:
                     return cmp_class_const(op, x[1], y[1])
                 if is_k(x) and is_cls(y):
                     return cmp_class_const({"Lt": "Gt", "Le": "Ge", "Gt": "Lt", "Ge": "Le"}.get(op, op), y[1], x[1])
+                if x == ("len",) and is_k(y):
+                    return self.cmp_len(op, y[1])
+                if is_k(x) and y == ("len",):
+                    return self.cmp_len({"Lt": "Gt", "Le": "Ge", "Gt": "Lt", "Ge": "Le"}.get(op, op), x[1])
                 if op in ("Eq", "Ne") and isinstance(x, bool) and isinstance(y, bool):
                     return (x == y) if op == "Eq" else (x != y)
                 raise Unknown("comparison %s of %r and %r" % (op, x, y))
@@ -297,6 +312,8 @@ class Interp:
             x = self.operand(b, env, rv["ops"][0])
             if rv["op"] == "Not" and isinstance(x, bool):
                 return not x
+            if rv["op"] == "PtrMetadata" and x == ("bytes",):
+                return ("len",)          # the length of the validated string: 0 for the empty string, at least 1 otherwise
             raise Unknown("unop %s" % rv["op"])
         if k == "discr":
             v = self.load(b, env, rv["pl"])
@@ -309,9 +326,24 @@ class Interp:
             return self.operand(b, env, rv["ops"][0])
         raise Unknown("rvalue %s" % k)
 
+    def cmp_len(self, op, k):
+        """`len <op> k` for the validated string: len is 0 for the empty string and some value >= 1 otherwise."""
+        holds = {"Lt": lambda x: x < k, "Le": lambda x: x <= k, "Gt": lambda x: x > k, "Ge": lambda x: x >= k, "Eq": lambda x: x == k, "Ne": lambda x: x != k}[op]
+        if self.first == "EMPTY":
+            return holds(0)
+        # the same answer for every length >= 1, or the code looks at more than emptiness
+        if k <= 1 and op in ("Ge", "Lt"):
+            return holds(1)
+        if k == 0:
+            return holds(1)
+        raise Unknown("comparison of the string length with %d" % k)
+
     # ------------------------------------------------------------------ calls
     def call(self, b, env, t):
         args = [self.operand(b, env, a) for a in t["args"]]
+        if "callee" not in t and t.get("func"):
+            # a call through a function pointer whose value is known here (a validator handed over as `fn(u8) -> bool`)
+            return self.apply(self.operand(b, env, t["func"]), args)
         names = set()
         for key in ("callee", "callee_args", "res", "res_args"):
             if t.get(key):
